@@ -30,11 +30,15 @@ structure Cfg where
   quota : Rat → Nat → Rat
   acceptEqual : Bool
   onOver : OnOver
+  /-- does the quota callable have a `__name__`?  (registered functions do, `quota.constant(...)` instances do not;
+      the message of L264 reads `self.quota_function.__name__`) -/
+  named : Bool := true
 
 def zeroDiv : Err := .other "ZeroDivisionError"
 def indexErr : Err := .other "IndexError"
 def nestedTie : Err := .other "Model:NestedTie"
 def fuelErr : Err := .other "Model:Fuel"
+def attrErr : Err := .other "AttributeError"
 
 /-! ### dict helpers -/
 
@@ -191,7 +195,7 @@ def applyPolicy (cfg : Cfg) (votes : Votes) (n : Nat) (prev : IMap) (selected : 
   if totalAwarded > (n : Int) then
     match cfg.onOver with
     | .ignore => .ok selected
-    | .error => .error .votingSystemError
+    | .error => if cfg.named then .error .votingSystemError else .error attrErr   -- L263-266
     | .subtract => subtractOveraward cfg votes selected n prev
   else .ok selected
 
